@@ -1,7 +1,7 @@
 (* C12 — key-to-slot mapping equals the Redis Cluster specification.
    Only statements; every proof is `exact <lemma from Proofs/>`. *)
 From Coq Require Import List NArith.
-From Sam Require Import Gen.Tables Model.Slot Proofs.SlotProofs.
+From Sam Require Import Gen.Tables Model.Slot Proofs.SlotProofs Lib.GoLib Gen.Funcs Proofs.GenFuncsProofs.
 Import ListNotations.
 Open Scope N_scope.
 
@@ -42,6 +42,14 @@ Theorem C12_same_tag : forall k1 k2, bytes_ok k1 -> bytes_ok k2 -> hashtag k1 = 
   slot_of crc16tab slot_num k1 = slot_of crc16tab slot_num k2.
 Proof. exact same_tag. Qed.
 Print Assumptions C12_same_tag.
+
+(* the Go functions themselves, translated from proc/redis/util.go on every run (Gen/Funcs.v, gen/trans.go): what the
+   proxy computes - crc16(hashtag(key)) & (slotNum-1) - is the Redis Cluster slot of the key *)
+Theorem C12_translated_code : forall key, bytes_ok key ->
+  N.land (crc16_go (hashtag_go key)) (slot_num - 1) = crc16_spec (hashtag key) mod 16384 /\
+  hashtag_go key = hashtag key.
+Proof. exact slot_go_spec. Qed.
+Print Assumptions C12_translated_code.
 
 (* the Redis Cluster specification's own examples (non-vacuity) *)
 Definition b (l : list N) := l.
